@@ -105,7 +105,10 @@ def gen_source(rng):
         if shape == 0:    # flat
             for j in range(rng.randrange(1, 3)):
                 nm = f"inc{j}"
-                files[nm] = f"p{j}  {j};\nshared  {{ from{j}  {j}; }}\n"
+                # line comments in the middle of the included file's levels (their place among the entries must survive the
+                # re-read of the written file, which merges the include a second time)
+                files[nm] = (f"// about p{j}\np{j}  {j};\nshared\n{{\n    // inside shared, from {j}\n    from{j}  {j};\n}}\n"
+                             f"// before the last entry of inc{j}\nlast{j}  {j};\n") if rng.random() < 0.6 else f"p{j}  {j};\nshared  {{ from{j}  {j}; }}\n"
                 inc_lines.append(f"#include '{nm}'")
         elif shape == 1:  # nested chain
             files["incA"] = "#include 'sub/incB'\npa  1;\n"
@@ -125,6 +128,32 @@ def write_files(tmp, files):
         p = tmp / name
         p.parent.mkdir(parents=True, exist_ok=True)
         p.write_text(content)
+
+
+def seq_view(d, blocks=True):
+    """the document as a reader of the file sees it: per dict level the SEQUENCE of keys and comment texts (a comment
+    placeholder is replaced by its text from the tables); include placeholders and values are left out"""
+    import re as _re
+
+    lc, bc = dict(getattr(d, "line_comments", {})), dict(getattr(d, "block_comments", {}))
+
+    def go(x):
+        out = []
+        for k, v in x.items():
+            if isinstance(k, str) and "INCLUDE" in k:
+                continue
+            m = _re.fullmatch(r"(LINECOMMENT|BLOCKCOMMENT)(\d{6})", k) if isinstance(k, str) else None
+            if m:
+                if m.group(1) == "BLOCKCOMMENT" and not blocks:
+                    continue
+                tab = lc if m.group(1) == "LINECOMMENT" else bc
+                out.append(("comment", tab.get(int(m.group(2)), k)))
+            elif isinstance(v, dict):
+                out.append((k, go(v)))
+            else:
+                out.append((k, None))
+        return out
+    return go(dict(d))
 
 
 def oracle(case: dict):
@@ -151,6 +180,16 @@ def oracle(case: dict):
             got = canon_data(cur)
             if not gen.typed_eq(got[0], ref[0]) or got[1] != ref[1]:
                 return ("data-drift", f"data after cycle {k} {got!r} differs from the first read {ref!r}")
+            # from the first written file on, also the PLACE of every comment among the entries of its level is stable
+            # (the first cycle may add the default header and move block comments to the top: documented)
+            # line comments keep their place among the keys of their level from the first read on (the writer moves block
+            # comments and include directives to the top, nothing else)
+            if seq_view(cur, blocks=False) != seq_view(d1, blocks=False):
+                return ("comment-drift", f"keys and line comments after cycle {k} {seq_view(cur, blocks=False)!r} differ in sequence from the first read {seq_view(d1, blocks=False)!r}")
+            if k == 1:
+                view1 = seq_view(cur)
+            elif seq_view(cur) != view1:
+                return ("comment-drift", f"sequence of keys and comments after cycle {k} {seq_view(cur)!r} differs from cycle 1 {view1!r}")
             b = y.read_bytes()
             if not case["has_includes"] and prev_bytes is not None and b != prev_bytes:
                 return ("bytes-drift", f"bytes of cycle {k} differ from cycle {k - 1}: {b!r} vs {prev_bytes!r}")
